@@ -121,3 +121,64 @@ Proof.
   - apply (run_st_pure _ _ (fun _ => True)); [intros st u _; split; [apply huff_sample_st_fst | exact I] | exact I].
   - apply (run_st_pure _ _ (fun _ => True)); [intros st u _; split; [reflexivity | exact I] | exact I].
 Qed.
+
+(* ---------- the lru cache of the n-d tree: a READ cache (a hit replaces the evaluation of the box mass) ---------- *)
+From RV Require Import Base.Corr Model.BstAdaptedNd.
+
+Lemma zpair_eqb_eq a b : zpair_eqb a b = true -> a = b.
+Proof.
+  unfold zpair_eqb. intro H. apply andb_true_iff in H. destruct H as [H1 H2].
+  apply Z.eqb_eq in H1. apply Z.eqb_eq in H2. destruct a, b. simpl in *. congruence.
+Qed.
+
+Lemma box_eqb_eq : forall a b, box_eqb a b = true -> a = b.
+Proof.
+  unfold box_eqb. induction a as [|x a IH]; intros [|y b] H; simpl in H; try discriminate; [reflexivity|].
+  apply andb_true_iff in H. destruct H as [H1 H2]. f_equal; [apply zpair_eqb_eq; assumption | apply IH; assumption].
+Qed.
+
+Section NdCache.
+  Variable bm : box -> Q.
+  Variable evict : ndcache -> ndcache.
+  Hypothesis evict_incl : forall c x, In x (evict c) -> In x c.
+
+  (* every stored value is the mass of its key FOR THIS INSTANCE (a cache shared between instances breaks this) *)
+  Definition nd_sound (c : ndcache) : Prop := forall b v, In (b, v) c -> v = bm b.
+
+  Lemma nd_lookup_sound c b v : nd_sound c -> ndcache_lookup c b = Some v -> v = bm b.
+  Proof.
+    induction c as [|[b' v'] r IH]; intros S0 L; simpl in L; [discriminate|].
+    destruct (box_eqb b b') eqn:E.
+    - inversion L; subst. apply box_eqb_eq in E. subst b'. apply S0. left. reflexivity.
+    - apply IH; [|assumption]. intros x y Hin. apply S0. right. assumption.
+  Qed.
+
+  Lemma bm_cached_spec c b : nd_sound c -> fst (bm_cached bm evict c b) = bm b /\ nd_sound (snd (bm_cached bm evict c b)).
+  Proof.
+    intro S0. unfold bm_cached. destruct (ndcache_lookup c b) as [v|] eqn:L; simpl.
+    - split; [eapply nd_lookup_sound; eassumption | assumption].
+    - split; [reflexivity|]. intros x y Hin. apply evict_incl in Hin. destruct Hin as [Hin|Hin]; [inversion Hin; reflexivity | apply S0; assumption].
+  Qed.
+
+  Lemma nd_go_c_spec fuel : forall k res cp c, nd_sound c ->
+    fst (nd_go_c bm evict fuel k res cp c) = nd_go bm fuel k res cp /\ nd_sound (snd (nd_go_c bm evict fuel k res cp c)).
+  Proof.
+    induction fuel as [|f IH]; intros k res cp c S0; cbn [nd_go_c nd_go]; [split; [reflexivity | assumption]|].
+    destruct (k <? length res)%nat.
+    - unfold nd_axis_c, nd_axis. destruct (degenerate (nth k res (0, 0)%Z)); cbn [fst snd]; [apply IH; assumption|].
+      set (res1 := upd res k (fst (nth k res (0, 0)%Z), ((snd (nth k res (0, 0)%Z) + fst (nth k res (0, 0)%Z)) / 2)%Z)).
+      destruct (bm_cached_spec c res1 S0) as [V S1]. rewrite V.
+      destruct (Qltb (bm res1) cp); cbn [fst snd]; apply IH; assumption.
+    - destruct (all_degenerate res); [split; [reflexivity | assumption] | apply IH; assumption].
+  Qed.
+
+  (* any sequence of sample_one_bucket calls on one instance, starting with an empty cache, whatever is evicted *)
+  Theorem nd_cache_history_free (res : box) (us : list Q) :
+    run_st (fun c u => sample_one_bucket_c bm evict res c u) [] us = map (sample_one_bucket bm res) us.
+  Proof.
+    apply (run_st_pure _ _ nd_sound).
+    - intros c u S0. unfold sample_one_bucket_c, sample_one_bucket. cbn [fst snd].
+      destruct (nd_go_c_spec (nd_fuel res) (length res) res u c S0) as [E S1]. rewrite E. split; [reflexivity | assumption].
+    - intros b v [].
+  Qed.
+End NdCache.
